@@ -95,6 +95,8 @@ def shard_direct(shard):
                     continue
                 judge("direct", what, sub, flav, case, part)
     count(part, f"class-explored/{flav}")
+    if mn in ("set", "rot_x", "store"):
+        add_sample(part, {"route": "direct", "flavour": flav, "mnemonic": mn, "field": 0, "value": OOR[lk[0]][0]})
     return part
 
 
@@ -191,6 +193,8 @@ def shard_text(shard):
             continue
         judge("text", "app-id", sub, flav, {"route": "text", "text": text}, part)
     count(part, f"text-explored/{flav}")
+    if mn == "set":
+        add_sample(part, {"route": "text", "text": "# NETQASM 0.0\n# APPID 1\nset R16 5\n"})
     return part
 
 
@@ -280,6 +284,7 @@ def shard_sdk(shard):
                 continue
             judge("sdk", "app-id", conn.subs[-1], "vanilla", case, part)
     count(part, "sdk-scenarios")
+    add_sample(part, {"route": "sdk", "scenario": name, "values": SDK_VALUES[what]})
     return part
 
 
